@@ -26,6 +26,10 @@ fn deliver(w: &mut World, msg: &WMsg) -> Option<String> {
     let (_d, _r, p) = w.deliver("n1", &bytes);
     p
 }
+/// A resetting delta about n2: from version 0 with a GC watermark above the copy's frontier.
+fn repl_reset(w: &mut World, gc: u64, key: &str, val: &str, ver: u64) -> Option<String> {
+    deliver(w, &WMsg::Ack { ops: vec![WOp::Node { id: wid("n2"), gc, from: 0 }, WOp::KV { key: key.to_string(), val: val.to_string(), ver, st: 0 }] })
+}
 fn repl(w: &mut World, key: &str, val: &str, ver: u64, st: u8) -> Option<String> {
     deliver(w, &WMsg::Ack { ops: vec![WOp::Node { id: wid("n2"), gc: 0, from: 0 }, WOp::KV { key: key.to_string(), val: val.to_string(), ver, st }] })
 }
@@ -88,6 +92,8 @@ fn run_case(case: &Value) -> (Vec<Value>, Option<String>) {
         "LocalSetAfterDelete" => w.api("n1", "Set", &key, "v1").or(w.api("n1", "Delete", &key, "")),
         "ReplTombstone" => repl(&mut w, &key, "v0", 1, 0),
         "ReplStale" => repl(&mut w, &key, "v0", 2, 0),
+        "ReplResetCarried" => repl(&mut w, &key, "v0", 1, 0),
+        "ReplAfterReset" => repl(&mut w, &key, "v0", 1, 0).or(repl_reset(&mut w, 5, "zz-other", "w", 6)),
         _ => None,
     }));
     let pre_panic = match pre { Ok(p) => p, Err(e) => Some(panic_text(e)) };
@@ -103,6 +109,8 @@ fn run_case(case: &Value) -> (Vec<Value>, Option<String>) {
         "ReplNewerTtl" => repl(&mut w, &key, "v1", 1, 2),
         "ReplTombstone" => repl(&mut w, &key, "", 2, 1),
         "ReplStale" => repl(&mut w, &key, "v1", 1, 0),
+        "ReplResetCarried" => repl_reset(&mut w, 5, &key, "v1", 6),
+        "ReplAfterReset" => deliver(&mut w, &WMsg::Ack { ops: vec![WOp::Node { id: wid("n2"), gc: 5, from: 6 }, WOp::KV { key: key.to_string(), val: "v1".to_string(), ver: 7, st: 0 }] }),
         _ => Some(format!("unknown kind {kind}")),
     }));
     match ev { Ok(p) => { if p.is_some() { panic = p; } } Err(e) => panic = Some(panic_text(e)) }
@@ -123,7 +131,7 @@ fn main() {
         let n: u64 = std::env::args().nth(3).and_then(|s| s.parse().ok()).unwrap_or(500);
         let mut rng = StdRng::seed_from_u64(seed);
         let alphabet = ['a', 'b', 'E', 'G'];
-        let kinds = ["LocalSetNew", "LocalSetChange", "LocalSetSame", "LocalSetAfterDelete", "LocalSetTtlNew", "LocalDelete", "LocalDeleteTtl", "ReplNewerSet", "ReplNewerTtl", "ReplTombstone", "ReplStale", "LocalSetEmptyAfterDelete", "LocalSetTtlSameValue", "ReplSameValueNewer"];
+        let kinds = ["LocalSetNew", "LocalSetChange", "LocalSetSame", "LocalSetAfterDelete", "LocalSetTtlNew", "LocalDelete", "LocalDeleteTtl", "ReplNewerSet", "ReplNewerTtl", "ReplTombstone", "ReplStale", "LocalSetEmptyAfterDelete", "LocalSetTtlSameValue", "ReplSameValueNewer", "ReplResetCarried", "ReplAfterReset"];
         let fates = ["held", "dropped", "forever"];
         let word = |rng: &mut StdRng, maxlen: usize| -> String { let l = rng.random_range(0..=maxlen); (0..l).map(|_| alphabet[rng.random_range(0..4)]).collect() };
         for _ in 0..n {
